@@ -16,6 +16,12 @@ CHECKS = {
         design="§7 C18",
         note="SHAKE-256 is an oracle (the harness recomputes to_scalar from the model's pre-image); UTF-8 validity is a parameter of the theorems with an executable instance for evaluation; Rust str/int parsing, hex, serde_bare, blstrs_plus canonical decoding are modelled by hand.",
         technique="Coq theorems (lia/induction) over an executable Gallina model + differential correspondence against credx"),
+    "C08": dict(
+        text="Theorems over all (v, lower, upper) in i64 x option i64 x option i64: the honest prover's commit succeeds iff lower<=v<=upper (debug and release builds), its u64 offsets never overflow in range and equal the verifier's field offsets applied to the signed scalar (same blinding), "
+             "and the verifier's 64-bit range proofs on the adjusted commitments are satisfiable iff the value is in range (no field wrap-around since r > 2^65). Correspondence: Presentation::create/verify (+BARE round trip) over the boundary lattice product and random triples, BBS and PS.",
+        design="§7 C08",
+        note="bulletproofs-bls idealised as a sound and complete 64-bit range proof with binding Pedersen commitments; the commitment's link to the signed claim is C05.",
+        technique="Coq theorems (lia over Z with explicit 2^64 wrap and the concrete modulus r) + differential end-to-end correspondence"),
 }
 
 PLANNED = {
